@@ -74,7 +74,7 @@ FN = {
 FN2 = dict(FN)
 FN2.update({('x', 'x'): 'y.x.X', ('x', 'y'): 'y.x.Y', ('y', 'x'): 'x.X', ('y', 'y'): 'x.Y',
             ('x.y', 'x'): 'x.T.V', ('x.y', 'y'): 'x.clo', ('x..', 'x'): 'x.(*R).M', ('x..', 'y'): 'x.H'})
-PREFIX = {'x': 'c15/stack', 'x.y': 'gopls.bug'}
+PREFIX = {'': '', 'x': 'c15/stack', 'x.y': 'gopls.bug'}
 
 
 def _chain(frs, table):
@@ -145,7 +145,7 @@ def run(ctx):
         raise Infra('StackNameMC generic witness: unexpected %s %s\n%s' % (r.error, r.error_name, r.out[-2000:]))
 
     # ---- 3b. deep stacks that differ in exactly one frame, at every depth ---------
-    r = ctx.tlc('StackNameMC', cfg_text='INIT InitSingle\nNEXT Next\nINVARIANTS SingleDiffers\nCHECK_DEADLOCK FALSE\n' +
+    r = ctx.tlc('StackNameMC', cfg_text='INIT InitSingle\nNEXT Next\nINVARIANTS SingleDiffers DepthDecides\nCHECK_DEADLOCK FALSE\n' +
                 CONSTS % (4096, strlen, seqlen, pairlen, 'FALSE'), dump=True, label='StackNameMC-single', timeout=1200)
     if not r.ok:
         raise Infra('StackNameMC single: the specification violates %s %s\n%s' % (r.error, r.error_name, r.out[-3000:]))
@@ -153,13 +153,13 @@ def run(ctx):
     for st in tlaval.read_dump(r.dump):
         for frs in (st['frs'], st['frs2']):
             fns = tuple(_chain(frs, FN))
-            if fns in seen_single:
+            # NewStack depth as the model chose it (fewer frames than the chain has: extra < 0)
+            key = (fns, st['depth'])
+            if key in seen_single:
                 continue
-            seen_single.add(fns)
-            # NewStack depth = the whole chain (extra 0) and beyond (extra 3)
-            for extra in (0, 3):
-                chains.append({'id': 1600000 + nsingle, 'fns': list(fns), 'prefix': 'c15/deep', 'extra': extra, 'src': 'single'})
-                nsingle += 1
+            seen_single.add(key)
+            chains.append({'id': 1600000 + nsingle, 'fns': list(fns), 'prefix': 'c15/deep', 'extra': st['depth'] - len(fns), 'src': 'single'})
+            nsingle += 1
     ctx.cov['single_difference_stacks'] = nsingle
 
     # ---- 4. real DecodeStack on strings and valid encodings ----------------------
